@@ -656,3 +656,13 @@ for _p in ("C03", "C09", "C15", "C17", "C18"):
     PROPS[_p].assumptions = PROPS[_p].assumptions + [
         "V-run: the file system (current_dir, read_to_string), Lexer::new + ProgParser::parse and eval_prog are external; "
         "a file's content and the parse of a text are functions of the path / the text for the duration of one run"]
+
+
+# round-5 seeds
+_add_v("C14", "list_bind", "object_bind", "binop")   # a method handed on through a pattern / a concatenation keeps its provenance
+_add_v("C16", "ctl")                                  # if / while conditions are checked to be bool (eval_expr_to_bool, not a truthiness test)
+_add_v("C13", "ctl")                                  # a named function's parameters are validated when it is declared
+_add_v("C20", "ctl")
+_add_v("C11", "bind_next")                            # `xs[i] += t` is old + t, in that order
+PROPS["C06"]._k = PROPS["C06"]._k + [u for u in [props_lexer.C18_UNITS[1]] + props_lexer.C03_SCANNER_UNITS if u not in PROPS["C06"]._k]   # a literal is sliced out of the source by byte index
+_add_v("C19", "validate")                             # which duplicate parameter is reported must not depend on a hash seed (iteration over a HashMap is not modelled: undecided)
